@@ -57,6 +57,11 @@ def cases(tier, seed):
                 if k >= 0:
                     cs.append({'scen': 'c18_unary_args', 's': {'what': 'getitem_arity', 'd': d, 'kind': kind, 'k': k, 'B': B, 'class_check': False}})
             cs.append({'scen': 'c18_unary_args', 's': {'what': 'getitem_int', 'd': d, 'kind': kind, 'B': B, 'class_check': False}})
+            for k in ((d - 1, d, d + 1) if kind == 'tt' else (2 * d - 2, 2 * d, 2 * d + 2)):
+                if k >= 0:
+                    cs.append({'scen': 'c18_unary_args', 's': {'what': 'getitem_arity_none', 'd': d, 'kind': kind, 'k': k, 'B': B, 'class_check': False}})
+                    if kind == 'tt':
+                        cs.append({'scen': 'c18_unary_args', 's': {'what': 'getitem_arity_none', 'd': d, 'kind': kind, 'k': k, 'front': False, 'B': B, 'class_check': False}})
             for k in (d, d + 1):
                 cs.append({'scen': 'c18_unary_args', 's': {'what': 'pad_count', 'd': d, 'kind': kind, 'k': k, 'B': B}})
             for mode in (0, d - 1, d, -1):
